@@ -26,7 +26,8 @@ Inductive err :=
 | ETweak       (* ValueError from coincurve add(): tweak out of range or result invalid *)
 | EChainCode   (* ValueError 'invalid chain code' *)
 | EDepth       (* ValueError 'invalid depth' *)
-| EWord.       (* ValueError from list.index: word not in the word list *)
+| EWord        (* ValueError from list.index: word not in the word list *)
+| EPayload.    (* IndexError: decoded[0] on an empty payload *)
 
 Inductive res (A : Type) := Ok (a : A) | Err (e : err).
 Arguments Ok {A} a.
@@ -261,6 +262,21 @@ Section CKD.
     (* Ledger.address_to_hash160: Base58.decode(address)[1:21] -- no checksum verification *)
     Definition address_to_hash160 (a : bytes) : res bytes := res_map (slice 1 21) (b58_decode a).
 
+    (* Ledger.is_pubkey_address / is_script_address: Base58.decode_check(address)[0] == prefix[0]
+       (the check behind Daemon.valid_address_or_error) *)
+    Definition is_version_address (ver : byte) (a : bytes) : res bool :=
+      bind (b58_decode_check dsha a) (fun p =>
+        match p with [] => Err EPayload | b :: _ => Ok (byte_eqb b ver) end).
+    (* valid_address_or_error: any exception or a false answer means "not a valid address" *)
+    Definition valid_address (pub_ver script_ver : byte) (allow_script : bool) (a : bytes) : bool :=
+      match is_version_address pub_ver a with
+      | Ok true => true
+      | Ok false => if allow_script then
+                      match is_version_address script_ver a with Ok true => true | _ => false end
+                    else false
+      | Err _ => false
+      end.
+
     (* address number i of chain c of an account public key: account.public_key.child(c).child(i).address *)
     Definition chain_address (prefix : bytes) (acct : xkey) (c i : N) : res bytes :=
       bind (ckd_pub acct c) (fun ck => bind (ckd_pub ck i) (fun k => address prefix (xk_key k))).
@@ -365,3 +381,50 @@ Section Mnemonic.
     | Some ds => Ok (val_msb nwords (rev ds))
     end.
 End Mnemonic.
+
+(* ---------------------------------------------------------------- mnemonic text normalisation *)
+(* lbry/wallet/mnemonic.py normalize_text over Unicode code points.  NFKD, str.lower and unicodedata.combining are
+   primitives (Section variables); their ORDER, the whitespace collapse and the CJK rule are modelled. *)
+Definition ws_cps : list N := [9; 10; 11; 12; 13; 28; 29; 30; 31; 32; 133; 160; 5760; 8192; 8193; 8194; 8195; 8196; 8197; 8198; 8199; 8200; 8201; 8202; 8232; 8233; 8239; 8287; 12288].            (* str.isspace() *)
+Definition is_ws_cp (c : N) : bool := existsb (N.eqb c) ws_cps.
+Definition is_ascii_ws (c : N) : bool := existsb (N.eqb c) [32; 9; 10; 13; 11; 12].   (* string.whitespace *)
+Definition cjk_intervals : list (N * N) := [(19968, 40959); (13312, 19903); (131072, 173791); (173824, 177983); (177984, 178207); (63744, 64255); (194560, 195101); (12688, 12703); (11904, 12031); (12032, 12255); (12736, 12783); (12272, 12287); (917760, 917999); (12544, 12591); (12704, 12735); (65280, 65519); (12352, 12447); (12448, 12543); (12784, 12799); (110592, 110847); (44032, 55215); (4352, 4607); (43360, 43391); (55216, 55295); (12592, 12687); (42192, 42239); (93952, 94111); (40960, 42127); (42128, 42191)].
+Definition is_cjk (c : N) : bool := existsb (fun iv => (fst iv <=? c) && (c <=? snd iv)) cjk_intervals.
+
+(* str.split(): (characters up to the first whitespace, the remaining words) *)
+Fixpoint splitg_go {A} (sp : A -> bool) (s : list A) : list A * list (list A) :=
+  match s with
+  | [] => ([], [])
+  | c :: r => let (w, ws) := splitg_go sp r in
+              if sp c then ([], match w with [] => ws | _ => w :: ws end) else (c :: w, ws)
+  end.
+Definition splitg {A} (sp : A -> bool) (s : list A) : list (list A) :=
+  let (w, ws) := splitg_go sp s in match w with [] => ws | _ => w :: ws end.
+Fixpoint joing {A} (sep : A) (ws : list (list A)) : list A :=
+  match ws with
+  | [] => []
+  | w :: r => match r with [] => w | _ => w ++ sep :: joing sep r end
+  end.
+
+(* ' '.join(seed.split()) *)
+Definition collapse_ws (s : list N) : list N := joing 32 (splitg is_ws_cp s).
+
+(* drop seed[i] when it is whitespace and both neighbours are CJK (neighbours taken from the unfiltered string) *)
+Fixpoint rm_cjk_spaces (prev : option N) (s : list N) : list N :=
+  match s with
+  | [] => []
+  | c :: r =>
+    let drop := is_ascii_ws c && (match prev with Some p => is_cjk p | None => false end)
+                && (match r with n :: _ => is_cjk n | [] => false end) in
+    (if drop then [] else [c]) ++ rm_cjk_spaces (Some c) r
+  end.
+
+Section Normalize.
+  Variable nfkd : list N -> list N.        (* unicodedata.normalize('NFKD', s) *)
+  Variable lower : list N -> list N.       (* str.lower() *)
+  Variable combining : N -> bool.          (* unicodedata.combining(c) != 0 *)
+
+  Definition strip_accents (s : list N) : list N := filter (fun c => negb (combining c)) s.
+  Definition normalize_text (s : list N) : list N :=
+    rm_cjk_spaces None (collapse_ws (strip_accents (lower (nfkd s)))).
+End Normalize.
